@@ -132,7 +132,11 @@ CHECKS["C02"] = dict(
          "their image by a finite disjunction and are values of function rows; define_ returns the existing value of a defined term and allocates nothing "
          "then. By induction every tuple and every equality of a closed model holds in every model (within the bound) of the rules and of the assertions, "
          "i.e. is forced. The structural invariants the induction rests on are re-checked as hypotheses. A failed lemma is reported only with a "
-         "solver-found history plus a concrete certificate (a model N of the rules and of the assertions lacking a derived fact) re-checked natively.",
+         "solver-found history plus a concrete certificate (a model N of the rules and of the assertions lacking a derived fact) re-checked natively. "
+         "In addition, at the rule level and for models of any size: for every stage with at most 5 variables and 7 premise tuples the real rule module is "
+         "run (concretely) on every sub-database of the stage's canonical database, and every tuple / equality / definition it pushes must be the conclusion "
+         "of a stage of the rule under an assignment whose premise holds there; an unjustified push is reported with a native replay and the least model of "
+         "the program's rules over that database (reference chase) as certificate.",
     design_ref="§4 C02, §9")
 
 CHECKS["C03"] = dict(
